@@ -126,19 +126,21 @@ Proof.
   { unfold hst_ok in Hok. destruct ((ht =? 4) || (ht =? 3)); [lia|]. destruct ((ht =? 5) || (ht =? 6)); lia. }
   assert (Hscf : fits 1 scf = true) by assumption. assert (Hoff : fits 1 off = true) by assumption.
   assert (Htc : fits 6 tcid = true) by assumption. assert (Hpl : fits 16 pl = true) by assumption.
-  assert (Hmhl : fits 8 mhl = true) by assumption. assert (Hres : fits 8 res = true) by assumption.
+  assert (Hmhl : fits 8 mhl = true) by assumption. assert (Hres : res = 0) by lia. subst res.
   assert (Hfl : flags = 0 \/ flags = 128) by lia.
   unfold dec_common, enc_common.
   rewrite dec_enc_fields; [| nonneg_ws | reflexivity | ].
   - unfold obind, view_common, raw_common, arg. cbn [nth].
+    change (0 / 16) with 0. change (0 mod 16) with 0. rewrite Z.lor_0_r.
     rewrite Hok. replace (nh <=? 3) with true by lia. replace (ht <=? 6) with true by lia. cbn [andb].
     assert (E : Z.land flags 128 = flags) by (destruct Hfl as [-> | ->]; reflexivity).
     rewrite E. reflexivity.
   - unfold common_ws, raw_common, arg. cbn [nth all_fit].
-    rewrite Hscf, Hoff, Htc, Hpl, Hmhl, Hres.
+    change (0 / 16) with 0. change (0 mod 16) with 0. rewrite Z.lor_0_r.
+    rewrite Hscf, Hoff, Htc, Hpl, Hmhl.
     rewrite (fits_true 4 nh) by (cbn; lia). rewrite (fits_true 4 0) by (cbn; lia).
     rewrite (fits_true 4 ht) by (cbn; lia). rewrite (fits_true 4 hst) by (cbn; lia).
-    rewrite (fits_true 8 flags) by (cbn; lia). reflexivity.
+    rewrite (fits_true 8 flags) by (cbn; lia). rewrite (fits_true 8 0) by (cbn; lia). reflexivity.
 Qed.
 
 Lemma enc_common_length v : length (enc_common v) = 8%nat.
@@ -328,7 +330,7 @@ Lemma wf_common_mk nh ht hst scf off tcid mobile pl mhl :
   wf_common [nh; ht; hst; scf; off; tcid; mobile * 128; pl; mhl; 0] = true.
 Proof.
   intros Hnh Hht Hh0 Hok Hs Ho Ht Hm Hp Hh. unfold wf_common, arg. cbn [nth length Nat.eqb].
-  rewrite Hok, Hs, Ho, Ht, Hp, Hh. apply fits_elim in Hm. rewrite (fits_true 8 0) by (cbn; lia).
+  rewrite Hok, Hs, Ho, Ht, Hp, Hh. apply fits_elim in Hm.
   assert (mobile = 0 \/ mobile = 1) as [-> | ->] by (cbn in Hm; lia); cbn; lia.
 Qed.
 
@@ -347,6 +349,7 @@ Section Packets.
     unfold mk_beacon. rewrite skipn_app_exact by apply bh_for_length. unfold enc_common.
     apply dec_enc_fields; [nonneg_ws | reflexivity |].
     unfold common_ws, raw_common, arg. cbn [nth all_fit]. apply fits_elim in Hmob.
+    change (0 / 16) with 0. change (0 mod 16) with 0. rewrite Z.lor_0_r.
     rewrite (fits_true 8 mobile) by (cbn in Hmob |- *; lia). reflexivity.
   Qed.
 
